@@ -854,8 +854,23 @@ func (f *Frame) quantifier(forall bool, args [][]*Term, in ssa.Instruction) *Ter
 			return tb.Or(parts...)
 		}
 	}
-	f.u.nsym++
-	bv := tb.BVar(fmt.Sprintf("q!%d", f.u.nsym), BV64)
+	// an upper bound of the form e+c (c = 1..3): peel the last elements off, so that
+	// "forall [lo, e+1)" becomes "forall [lo, e)  and  P(e)" — the remaining quantifier is then
+	// syntactically the one assumed at the loop head and the rest is ground
+	if base, c := tb.splitAdd(args[1][0]); base != nil && c.IsInt64() && c.Int64() >= 1 && c.Int64() <= 3 && !args[1][0].hasBV {
+		e := tb.Sub(args[1][0], tb.BV(64, 1))
+		rest := f.quantifier(forall, [][]*Term{args[0], {e}, args[2]}, in)
+		inst := f.quantInstance(ci, e, in)
+		guard := tb.Sle(args[0][0], e)
+		if forall {
+			return tb.And(rest, tb.Implies(guard, inst))
+		}
+		return tb.Or(rest, tb.And(guard, inst))
+	}
+	// the bound variable is named after the function literal: two evaluations of the same
+	// quantifier (loop head / back edge, requires / ensures) then yield identical terms
+	// whenever their bodies agree (nested quantifiers come from different literals)
+	bv := tb.BVar("q!"+ci.fn.Name(), BV64)
 	sub := &Frame{u: f.u, fn: ci.fn, vals: map[ssa.Value][]*Term{}, spec: true, depth: f.depth + 1, freeVars: ci.bindings, inl: f.inl}
 	if f.stub != nil {
 		sub.stub = &stubEval{old: f.stub.old, startCtr: f.stub.startCtr, oldLoads: markOld(ci.fn), oldCalls: map[ssa.Instruction]bool{}}
